@@ -339,6 +339,64 @@ class StmtMixin(BuiltinMixin):
             raise EngineError("raise ... from <complex expression>")
         return self._vals(self.eval_expr(s.exc, st, ctx), f)
 
+    # ------------------------------------------------------------------ match (class, value, wildcard, or-patterns; guards)
+    def pattern_test(self, pat, subject, st, ctx):
+        """Returns a z3 Bool / python bool: does `subject` match `pat` (no sub-patterns with bindings except `as`)?"""
+        if isinstance(pat, ast.MatchAs):
+            if pat.pattern is None:
+                return True
+            return self.pattern_test(pat.pattern, subject, st, ctx)
+        if isinstance(pat, ast.MatchOr):
+            ts = [self.pattern_test(p2, subject, st, ctx) for p2 in pat.patterns]
+            ts = [z3.BoolVal(t) if isinstance(t, bool) else t for t in ts]
+            return z3.Or(*ts)
+        if isinstance(pat, ast.MatchValue):
+            v = self.eval1(pat.value, st, ctx.sub(spec=False))
+            return ops.values_equal(st, subject, v)
+        if isinstance(pat, ast.MatchSingleton):
+            return ops.identical(st, subject, pat.value)
+        if isinstance(pat, ast.MatchClass) and not pat.patterns and not pat.kwd_patterns:
+            cls = self.eval1(pat.cls, st, ctx.sub(spec=False))
+            if isinstance(subject, Ref) and META[subject.oid].kind == "exc":
+                return ("$split", subject, cls)
+            return self.isinstance_(st, subject, cls)
+        raise EngineError(f"{ctx.func.key()}:{pat.lineno}: unsupported match pattern {type(pat).__name__}")
+
+    def st_Match(self, s, st, ctx):
+        out = []
+        for s0, subj in self.eval_expr(s.subject, st, ctx):
+            if isinstance(subj, Raise):
+                out.append((s0, subj))
+                continue
+            pending = [s0]
+            for case in s.cases:
+                nxt = []
+                for cur in pending:
+                    t = self.pattern_test(case.pattern, subj, cur, ctx)
+                    if isinstance(t, tuple) and t[0] == "$split":
+                        branches = self.split_exc(cur, t[1], t[2])
+                    else:
+                        branches = self.fork(cur, t)
+                    for s2, ok in branches:
+                        if not ok:
+                            nxt.append(s2)
+                            continue
+                        if isinstance(case.pattern, ast.MatchAs) and case.pattern.name:
+                            self.assign_name(case.pattern.name, subj, s2, ctx)
+                        if case.guard is not None:
+                            for s3, g in self.cond_branches(case.guard, s2, ctx):
+                                if isinstance(g, Raise):
+                                    out.append((s3, g))
+                                elif g:
+                                    out.extend(self.exec_block(case.body, s3, ctx))
+                                else:
+                                    nxt.append(s3)
+                        else:
+                            out.extend(self.exec_block(case.body, s2, ctx))
+                pending = nxt
+            out.extend((s2, NORMAL) for s2 in pending)
+        return out
+
     # ------------------------------------------------------------------ try
     def st_Try(self, s, st, ctx):
         out = []
@@ -626,6 +684,17 @@ class StmtMixin(BuiltinMixin):
                     new = smt.fresh("data", smt.Bytes)
                     st.assume(smt.L(new) == smt.L(cur))
                     st.heap[oid][f] = new
+                    continue
+                if cur is None and META[oid].kind == "object":
+                    t = self.declared_field_type(Ref(oid), f, f)
+                    if t is not None:
+                        cname = META[oid].cls.ci.name
+                        st.heap[oid][f] = (self.make_symbolic_gen(st, t, f.strip("_"), Ref(oid), cname) if ("gen:" in t or "viewof:" in t)
+                                           else self.make_symbolic(st, t, f.strip("_")))
+                        continue
+                lt = ctx.contract.locals_types if ctx.contract else {}
+                if oid == ctx.frame.oid and f in lt:
+                    st.heap[oid][f] = self.make_symbolic(st, lt[f], f)  # declared type of a local (e.g. one that starts as None)
                     continue
                 st.heap[oid][f] = self.havoc_like(st, cur, f, f"loop{k}")
         for cl in spec.invariants:
